@@ -5,12 +5,14 @@
 
 mod out;
 mod c05;
+mod c06;
 mod c11;
 mod c12;
 mod c13;
 mod c14;
 mod c15;
 mod c16;
+mod c18;
 mod c37;
 mod c38;
 mod c39;
@@ -28,12 +30,14 @@ fn main() {
     if std::env::var("QE_NATIVE_PANIC_MSG").is_err() { std::panic::set_hook(Box::new(|_| {})); }
     let o = match sub {
         "c05" => c05::run(quick, seed, &work),
+        "c06" => c06::run(quick, seed),
         "c11" => c11::run(quick, seed, &work),
         "c12" => c12::run(quick, seed),
         "c13" => c13::run(quick, seed, &work),
         "c14" => c14::run(quick, seed, &work),
         "c15" => c15::run(quick, seed),
         "c16" => c16::run(quick, seed),
+        "c18" => c18::run(quick, seed, &work),
         "c37" => c37::run(quick, seed),
         "c38" => c38::run(quick, seed),
         "c39" => c39::run(quick, seed, &work),
